@@ -135,6 +135,13 @@ pub enum ProbeKind {
     /// (in addition to the amounts of real operations) and `position_fees(.., is_liquidation = true)` on a live
     /// position.
     FeesDirect { amount: U, discount: U, pos: u8 },
+    /// C14: fork twice; distribute after `t1` then after `t2` more seconds vs. once after `t1 + t2`.
+    SplitDistribution { t1: u32, t2: u32 },
+    /// C10: fork; open a fresh position `(size, collateral)` and fully close it at the same prices and time.
+    OpenClose { is_long: bool, collateral_long: bool, collateral: U, size_usd: U },
+    /// C11: fork a live position: full close at the current index price and at the index price scaled by
+    /// `(10000 + bump_bps) / 10000`, and a partial close of `partial_bps / 10000`.
+    PnlDirection { pos: u8, bump_bps: u32, partial_bps: u32 },
 }
 
 #[derive(Clone, Debug, Serialize, Deserialize, PartialEq)]
